@@ -36,39 +36,40 @@ type ndEvent struct {
 }
 
 type Violation struct {
-	Harness string    `json:"harness"`
-	Kind    string    `json:"kind"` // assert | panic
-	Msg     string    `json:"msg"`
-	Pos     string    `json:"pos"`
-	Replay  []ndEvent `json:"nondet"`
-	Alt     [][]ndEvent `json:"alt_nondet,omitempty"`
-	Schedule []string `json:"schedule,omitempty"`
-	Notes   []string  `json:"notes,omitempty"`
-	Path    int       `json:"path"`
+	Harness  string      `json:"harness"`
+	Kind     string      `json:"kind"` // assert | panic
+	Msg      string      `json:"msg"`
+	Pos      string      `json:"pos"`
+	Replay   []ndEvent   `json:"nondet"`
+	Alt      [][]ndEvent `json:"alt_nondet,omitempty"`
+	Schedule []string    `json:"schedule,omitempty"`
+	Notes    []string    `json:"notes,omitempty"`
+	Path     int         `json:"path"`
 }
 
 type Thread struct {
-	id          int
-	stack       []*frame
-	resume      chan struct{}
-	done        bool
-	state       string
-	wait        interface{}
-	fn          Value
-	args        []Value
-	site        ssa.Instruction
-	held        int
-	blocked     func() bool
-	kill        bool
-	sleeps      int
-	quiesce     bool
-	sleeping    bool
-	wake        bool
-	freeWake    int
-	ownProgress int
-	opKey       interface{}
-	opWrite     bool
-	opKnown     bool
+	id           int
+	stack        []*frame
+	resume       chan struct{}
+	done         bool
+	state        string
+	wait         interface{}
+	fn           Value
+	args         []Value
+	site         ssa.Instruction
+	held         int
+	blocked      func() bool
+	kill         bool
+	sleeps       int
+	sinceVisible int // instructions executed since the last visible operation (spin-limit)
+	quiesce      bool
+	sleeping     bool
+	wake         bool
+	freeWake     int
+	ownProgress  int
+	opKey        interface{}
+	opWrite      bool
+	opKnown      bool
 }
 
 type Exec struct {
